@@ -349,6 +349,29 @@ pub fn run(tier: Tier) -> i32 {
         CaseResult { case_hash: hash64(expr), nontrivial: got.is_ok(), outcome_hash: hash64(&format!("{got:?}")), executions: 1, violation: viol }
     });
     rep.absorb("special-values", st);
+    // magnitudes: whole numbers which single precision represents exactly are printed as they are
+    let mags: &[(&str, &str)] = &[
+        ("2147483648", "2147483648"), ("pow(2, 31)", "2147483648"), ("65536 * 32768", "2147483648"), ("-4294967296", "-4294967296"), ("2147483648 - 2147483520", "128"),
+        ("16777216", "16777216"), ("pow(2, 40)", "1099511627776"), ("1e3", "1000"), ("3000000000 / 2", "1500000000"), ("max(2147483648, 5)", "2147483648"),
+        ("select(1, 5, 6)", "6"), ("-2147483648", "-2147483648"), ("0 - 2147483904", "-2147483904"),
+    ];
+    let st = run_space(mags.len(), |i| {
+        let (expr, want) = mags[i];
+        let (r, _) = subject(expr);
+        let got = match &r {
+            Ok(v) => v.clone(),
+            Err(e) => format!("Err({e})"),
+        };
+        let bad = got != want;
+        CaseResult {
+            case_hash: hash64(&expr),
+            nontrivial: !bad,
+            outcome_hash: hash64(&got),
+            executions: 1,
+            violation: bad.then(|| Violation { clause: "magnitude".into(), signature: format!("C14/magnitude/{i}"), case: json!({"leg": "magnitude", "expr": expr}), detail: format!("{{{{{expr}}}}} gives {got}, expected {want}") }),
+        }
+    });
+    rep.absorb("magnitude", st);
     let quoted = ["1 + 2 \"", "7 '", "5''", "2'3'", "'a", "\"a", "'a' + '", "1 + 'x"];
     let st = run_space(quoted.len(), |i| {
         let expr = quoted[i];
@@ -455,6 +478,31 @@ pub fn run(tier: Tier) -> i32 {
     });
     rep.sample(json!({"leg": "contexts", "doc": ctxs[5].1, "occurrences": ctxs[5].2}));
     rep.absorb("contexts", st);
+    // the random SEQUENCE carries on across elements which have nothing to do with it: the k-th occurrence gets the
+    // k-th value whatever stands between the occurrences
+    let between: &[&str] = &["<config border=\"3\"/>", "<config/>", "<config theme=\"dark\" font-size=\"4\"/>", "<config loop-limit=\"50\"/>", "<var q=\"1\"/>", "<defaults><rect fill=\"red\"/></defaults>", "<specs><rect id=\"sq\" wh=\"1\"/></specs>", "<!-- c -->", "<loop count=\"2\"><config border=\"1\"/></loop>"];
+    let st = run_space(between.len() * 3, |i| {
+        let (x, seed) = (between[i / 3], [0u64, 1, 77][i % 3]);
+        let with = format!("<g a=\"{R}\"/>{x}<g b=\"{R}\"/>{x}<g c=\"{R}\"/>");
+        let without = format!("<g a=\"{R}\"/><g b=\"{R}\"/><g c=\"{R}\"/>");
+        let cfg = Cfg { seed, ..Cfg::plain() };
+        let vals = |d: &str| -> Vec<String> {
+            match run_str(d, &cfg) {
+                Outcome::Ok(o) => crate::xmlref::parse_tree(&o, crate::xmlref::Mode::Content).map(|t| t.iter().filter_map(|n| if let crate::xmlref::Node::El(e) = n { if e.name == "g" { e.attrs.first().map(|a| a.1.clone()) } else { None } } else { None }).collect()).unwrap_or_default(),
+                other => vec![other.brief()],
+            }
+        };
+        let (a, b) = (vals(&with), vals(&without));
+        let bad = a != b || a.len() != 3;
+        CaseResult {
+            case_hash: hash64(&(&with, seed)),
+            nontrivial: !bad,
+            outcome_hash: hash64(&a),
+            executions: 2,
+            violation: bad.then(|| Violation { clause: "random-sequence-disturbed".into(), signature: format!("C14/sequence/{}", i / 3), case: json!({"input": with, "seed": seed}), detail: format!("{with}\nvalues {a:?}; without the elements in between: {b:?}") }),
+        }
+    });
+    rep.absorb("sequence", st);
     rep.assume("variables hold plain numbers (substitution is textual by documentation); exponent literals, chained comparisons, empty parentheses and lists inside arithmetic are unspecified by the statement and only executed, never judged");
     rep.assume("documents of the contexts leg contain no forward references");
     rep.finish()
